@@ -81,4 +81,52 @@ CLAIMS["C17"] = {
     "technique": "Lean 4 proof (state-machine refinement to value-by-value decoding, generic in the inner decoder) + scripted reader/writer correspondence",
 }
 
+CLAIMS["C02"] = {
+    "text": "Two byte-level inductive grammars (Strict = RFC 8259 as encoding/json.Valid, Structural = sonic's lenient string bodies) and a transliteration of the "
+            "native validating state machine (frame stack, 4096 budget regenerated, number/string/literal scanners, trailing-space wrappers) with soundness, "
+            "completeness, depth and totality theorems for ALL byte strings and budgets; every consuming API is run on grammar-generated documents with a length "
+            "sweep over SIMD residues and single-edit malformations, judged by the two grammars and cross-checked with encoding/json.Valid.",
+    "note": COMMON_NOTE + " The interface{}/struct decoders are judged by the grammars only; Get with a path is judged on the located value.",
+    "technique": "Lean 4 proof (grammar <-> recogniser soundness/completeness by induction) + differential correspondence over every consuming API",
+}
+CLAIMS["C08"] = {
+    "text": "Open-addressing program map and the RCU program cache are modelled (arbitrary hash function, arbitrary number of threads, executions = arbitrary "
+            "schedules): invariant preserved by add/rehash, get-after-add, RCU invariant, linearizability of Get/Compute, one compile per publication, pool "
+            "exclusivity - proved for every schedule. The atomicity the model assumes is re-read from pcache.go on every run; the real map/cache are driven with "
+            "fabricated colliding keys through a verif hook and raced under -race; first-use races of fresh types are compared with sequential results.",
+    "note": COMMON_NOTE + " Data races below the model's atomic steps and the Go memory model itself are only observed by -race runs (partial).",
+    "technique": "Lean 4 proof (interleaving transition system invariants, any schedule) + hook-driven and -race correspondence",
+}
+CLAIMS["C09"] = {
+    "text": "Lookup order independence for any insertion order/capacity/rehash count, the loader's result mapping, and the type-keyed cache as a history machine are "
+            "modelled and proved, with kernel-checked negation witnesses where the faithful model is history dependent (cache keyed by type while the program depends on "
+            "addressability) and the partial theorem under the forced hypothesis; the same probe set is executed in fresh processes after different preludes "
+            "(permuted order, Pretouch variants and options, thousands of filler types, same-named types, recursive types) and must be identical and equal to encoding/json.",
+    "note": COMMON_NOTE + " inline_depth_irrelevant needs the encoder IR (not modelled yet); depth variation is covered by correspondence only.",
+    "technique": "Lean 4 proof (order independence by induction; history machine) + fresh-process history correspondence",
+}
+CLAIMS["C14"] = {
+    "text": "A byte-level searcher (get_by_path control flow, fast bracket/quote skipper) and an ordered-tree locate spec with full-strength theorems for all valid "
+            "documents and paths: the fast skipper agrees with the grammar, search = locate, raw slice parses to the located subtree, failure classes, option "
+            "irrelevance, views agree, Preorder = flattening. Real Get/GetWithOptions/Node APIs (8 option sets, both SIMD modes) are compared with a first-occurrence "
+            "token walker over encoding/json.",
+    "note": COMMON_NOTE + " match_key's piecewise unescape loop, the lazy Go loader behind Node.Get/Index and float accessors are tied by correspondence only.",
+    "technique": "Lean 4 proof (skipper/grammar agreement, search = locate by induction) + differential correspondence",
+}
+CLAIMS["C15"] = {
+    "text": "ast.Node's hidden representations (raw, lazy, loaded with soft deletion, hash index) are modelled op by op and proved to refine a plain ordered tree for "
+            "every finite operation sequence under an explicit safeStep guard; for each excluded point the negation of the full statement is kernel-checked on a "
+            "minimal sequence and replayed on the real node (known findings). Real nodes are driven with generated operation sequences and compared with the tree spec.",
+    "note": COMMON_NOTE + " refinement is partial exactly on what safeStep excludes; chunk layer: only At is proved; StrHash assumed collision-free in the model.",
+    "technique": "Lean 4 proof (refinement by induction over operation sequences, negation witnesses) + operation-sequence correspondence",
+}
+CLAIMS["C16"] = {
+    "text": "Per-method access-discipline facts (atomic calls, lock calls, plain field accesses, in order) are regenerated from ast/*.go on every run; thread programs are "
+            "derived from them and, over an interleaving model with happens-before tracking, no torn read / no data race / agreement with sequential are proved for all "
+            "disciplined systems and schedules; the regenerated programs of the documented read operations are decided disciplined. Shared nodes are read by many "
+            "goroutines under -race and compared with single-threaded results.",
+    "note": COMMON_NOTE + " Lazy nodes and children are argued as instances of the one-node protocol; memory model below atomics/mutexes not modelled (partial).",
+    "technique": "Lean 4 proof (interleaving model, discipline => race freedom) over source-regenerated access facts + -race correspondence",
+}
+
 NOT_CLAIMED = {}
